@@ -8,7 +8,7 @@ NAME_POOL = _NAME_POOL + ["rampup", "ab"]
 ID = "C05"
 HEAP_SUMMARY = True      # end every program with the reference-level observation (BB.Model.Heap vs id() walk)
 LEAN_MODULE = "BB.Properties.C05"
-QUICK_N = 250
+QUICK_N = 500
 THOROUGH_N = 5000
 RULE = ("random histories (length 8-30; thorough up to 45) over insertSegment (any position incl. -1; name given/omitted/empty/"
         "ending in a digit), removeSegment, changeArg (by name and position, replaceeverywhere on/off), changeDuration, "
